@@ -163,7 +163,7 @@ func genC10(r *sim.Rng, tier string, idx int) *GCase {
 
 // planList enumerates the kill and fault points of a run whose fault-free
 // execution performed the given mutating operations.
-func planList(kinds []string, inPath string, inLen int, seed uint64) []simos.Plan {
+func planList(kinds []string, armedMuts []int, armedReads int, inPath string, inLen int, seed uint64) []simos.Plan {
 	r := sim.NewRng(seed)
 	var out []simos.Plan
 	for i, k := range kinds {
@@ -178,6 +178,28 @@ func planList(kinds []string, inPath string, inLen int, seed uint64) []simos.Pla
 			p1.Partial = r.Range(0, 4000)
 		}
 		out = append(out, p1, simos.Plan{FailAt: at, Errno: "EIO"})
+	}
+	// simulated SIGINT at every mutating operation, with a few interleavings of
+	// the handler's two steps (remove the temporary file; exit 7) against main
+	armed := map[int]bool{}
+	for _, i := range armedMuts {
+		armed[i] = true
+	}
+	for i := range kinds {
+		at := i + 1
+		combos := [][2]int{{0, 0}, {1, 0}, {0, 2}, {r.Range(0, 4), r.Range(0, 4)}, {r.Range(2, 12), r.Range(0, 2)}}
+		if !armed[at] {
+			combos = combos[:1] // no handler listens there: default action, one plan is enough
+		}
+		for _, ab := range combos {
+			out = append(out, simos.Plan{SigAt: at, SigRemoveAfter: ab[0], SigExitAfter: ab[1]})
+		}
+	}
+	// ... and at the reads of the copy loop (the window in which gxz's handler listens)
+	for j := 1; j <= armedReads && j <= 6; j++ {
+		for _, ab := range [][2]int{{0, 0}, {1, 0}, {0, 1}, {r.Range(0, 5), r.Range(0, 5)}, {r.Range(2, 12), r.Range(0, 3)}} {
+			out = append(out, simos.Plan{SigAtRead: j, SigRemoveAfter: ab[0], SigExitAfter: ab[1]})
+		}
 	}
 	if inLen > 0 {
 		out = append(out, simos.Plan{ReadFail: true, ReadPath: inPath, ReadFailOff: r.Intn(inLen)},
@@ -203,7 +225,9 @@ func planName(p simos.Plan, kinds []string) string {
 	case p.ReadFail:
 		return "read-EIO"
 	case p.SigAt > 0:
-		return "sigint-at-" + kind(p.SigAt)
+		return fmt.Sprintf("sigint-at-%s", kind(p.SigAt))
+	case p.SigAtRead > 0:
+		return "sigint-at-read"
 	}
 	return "none"
 }
@@ -427,7 +451,7 @@ func runC10(c *GCase, x *sim.Ctx) *sim.Violation {
 		return nil
 	}
 	inLen := len(j.orig)
-	plans := planList(kinds, j.in, inLen, c.PartialSeed)
+	plans := planList(kinds, wf.ArmedMuts, wf.ArmedReads, j.in, inLen, c.PartialSeed)
 	for pi, p := range plans {
 		if c.HasOnly && pi != c.Only {
 			continue
@@ -473,7 +497,7 @@ func init() {
 			Engine:    "gxzsim",
 			Level:     "fault_enumeration",
 			Technique: "deterministic simulation of the gxz process on a simulated file system: the unmodified main() runs in-process over verif/sim/simos; every file-system mutation of a run is enumerated as kill point (before / after / mid-write) and as ENOSPC/EIO fault point, reads fail at seeded offsets; the data-loss invariant is evaluated on the simulated directory after every kill and every run",
-			Rule: "case = (initial directory: input valid/truncated/damaged/not compressed, optional existing target, stale temp file, unrelated file; one invocation from {compress, decompress} x {xz, lzma} x subsets of {-k,-f,-c} x names with spaces / known / unknown suffix / .txz/.tlz); fault space per case = for each of the M mutating operations of the fault-free run: kill before, kill after, kill mid-write, fail ENOSPC (partial write), fail EIO; plus two read faults; " +
+			Rule: "case = (initial directory: input valid/truncated/damaged/not compressed, optional existing target, stale temp file, unrelated file; one invocation from {compress, decompress} x {xz, lzma} x subsets of {-k,-f,-c} x names with spaces / known / unknown suffix / .txz/.tlz); fault space per case = for each of the M mutating operations of the fault-free run: kill before, kill after, kill mid-write, fail ENOSPC (partial write), fail EIO, and simulated SIGINT with 5 main/handler interleavings; plus two read faults; " +
 				"non-trivial = every faulted run whose fault actually fired; distinct = (scenario digest, plan) pairs",
 			Gen:    genC10,
 			Run:    runC10,
@@ -482,7 +506,7 @@ func init() {
 				if tier == "thorough" {
 					return 60000
 				}
-				return 6000
+				return 4000
 			},
 			Budget: func(tier string) time.Duration {
 				if tier == "thorough" {
@@ -497,7 +521,7 @@ func init() {
 				"process-kill semantics: every completed file-system operation is durable (page cache survives the process); power-loss reordering is outside the property",
 				"the simulated file system (flat namespace, modes, umask 022, O_EXCL, atomic rename-replace) stands for the kernel; its fidelity is checked against the real binary in the thorough tier",
 				"a run counts as failing when the model of the command line says the operand cannot be processed or an injected failure actually fired",
-				"gxz's signal-handler goroutine runs no code in these runs (no signal is delivered); SIGINT schedules are a separate seeded family",
+				"SIGINT: delivered when the main task reaches a chosen mutating operation; from then on main and the handler goroutine park at every simulated-OS call and the plan (two integers) decides who proceeds - close(quit) of the scratch copy is routed through the simulator so that the handler's state (armed / handling / disarmed) is always known; a SIGINT while no handler listens is the default action (process ends) and equals a kill",
 			},
 			Components: gxzComponents,
 		})
